@@ -5,7 +5,8 @@
 # then runs the check in isolation (tools/mutcheck.py) and prints whether it was caught.
 id=$1; crate=$2; shift 2; demo_args="$@"
 out=/tmp/seed/$id-out; wt=/tmp/seed/v-$id
-export CARGO_TARGET_DIR=/tmp/seed/target CARGO_NET_OFFLINE=true
+# private target dir: worktrees sharing one target dir overwrite each other's artefacts
+export CARGO_TARGET_DIR=/tmp/seed/v-$id-target CARGO_NET_OFFLINE=true
 git -C /repo worktree remove --force $wt >/dev/null 2>&1
 git -C /repo worktree add --detach $wt HEAD >/dev/null 2>&1 || { echo "cannot create worktree"; exit 2; }
 cd $wt
@@ -24,5 +25,6 @@ r3=${PIPESTATUS[0]}
 echo "rc: demo-without=$r1 demo-with=$r2 existing-with=$r3   (want 0, non-0, 0)"
 cd /verif
 git -C /repo worktree remove --force $wt
+rm -rf /tmp/seed/v-$id-target
 echo "== (4) the check, in isolation"
 tools/mutcheck.py $id $out/patch.diff 2>&1 | grep -E "VIOLATION|mutcheck:|theorems checked|obligation|KNOWN" | tail -6
